@@ -28,6 +28,21 @@ PROPS = {
                 "recursive_mutex (tasks) and both spinlocks (tasks and OS threads).",
         "required_probes": ["timed_lock.true", "timed_lock.false", "misuse.relock", "misuse.foreign_unlock", "recursive.nested", "try_lock.false"],
     },
+    "C07": {
+        "quick_runs": 6000, "thorough_runs": 400000, "seed": 7000001,
+        "kf_subs": {"kf_timed_os": 48},
+        "rule": "C07 programs: 2-6 parties (tasks / OS threads) x wait, wait(pred), wait_for, wait_until(pred), stop-token waits, "
+                "notify_one/notify_all (with or without the user lock held), request_stop over condition_variable and "
+                "condition_variable_any with pika::mutex, spinlock and std::mutex.",
+        "required_probes": ["timed.notified_before_deadline", "wait_for.timeout", "wait_for.no_timeout"],
+    },
+    "C09": {
+        "quick_runs": 6000, "thorough_runs": 400000, "seed": 9000001,
+        "rule": "C09 programs: latch (count 0-8, count_down(n)/arrive_and_wait/wait/try_wait, late waiters), barrier (1-9 "
+                "participants incl. more than workers, 1-5 phases, arrive+wait(token)/arrive_and_wait/arrive_and_drop, counting "
+                "completion functor), event (set/wait), call_once (2-6 callers, first k attempts throw); tasks and OS threads.",
+        "required_probes": ["latch.wait", "latch.arrive_and_wait", "barrier.drop", "barrier.arrive_then_wait", "event.wait", "once.throw"],
+    },
     "C08": {
         "quick_runs": 6000, "thorough_runs": 400000, "seed": 8000001,
         "kf_subs": {"kf_timed_os": 48},
